@@ -11,6 +11,7 @@ import MpirProofs.Lemmas.GcdJacobi
 import MpirProofs.Lemmas.GcdKronW
 import MpirProofs.Lemmas.GcdLehmer2
 import MpirProofs.Lemmas.GcdLehmer3
+import MpirProofs.Lemmas.GcdDiv
 namespace Mpir.C07
 open Mpir Mpir.Gcd
 
@@ -128,6 +129,17 @@ theorem gcdext_1_spec (a b : Nat) (ha : 0 < a) (hb : 0 < b) (haB : a < B) (hbB :
   Mpir.Gcd.gcdext_1_spec a b ha hb haB hbB
 
 example : gcdext_1 240 46 = (2, -9, 47) := by decide
+
+/-- div1 and div2 of hgcd2.c (shift-subtract division tuned for small quotients, both the
+    "numerator has its top bit set" and the "double the divisor while it fits" branches): quotient and
+    remainder of the true division, for every single-limb n, d ≠ 0 resp. two-limb n and d ≥ B. -/
+theorem div1_div2_spec :
+    (∀ n d : Nat, n < B → 0 < d → d < B → (div1 n d).1 = n / d ∧ (div1 n d).2 = n % d) ∧
+    (∀ n d : Nat, n < B * B → B ≤ d → d < B * B → (div2 n d).1 = n / d ∧ (div2 n d).2 = n % d) :=
+  ⟨fun n d hn h0 hd => div1_spec n d hn h0 hd, fun n d hn h0 hd => div2_spec n d hn h0 hd⟩
+
+example : div1 (B - 1) 3 = (6148914691236517205, 0) := by decide +kernel
+example : div2 (2 ^ 127 - 1) (3 * B + 5) = (3074457345618258602, 21521201419327810221) := by decide +kernel
 
 /-! ## mpz wrappers -/
 
